@@ -223,7 +223,7 @@ func pipeCorpus() []Case {
 
 func gen(seed uint64, tier string) []interface{} {
 	r := lib.NewRng(seed)
-	ngate, ntick, npipe := 240, 8, 3
+	ngate, ntick, npipe := 170, 6, 3
 	if tier == "thorough" {
 		ngate, ntick, npipe = 3000, 60, 45
 	}
